@@ -173,7 +173,11 @@ def build_s2p(rot_q, motion, sub, r, mu, aniso, brcp, seed=0, e_N=None, e_F=None
         kw["e_N"] = e_N
     if e_F is not None:
         kw["e_F"] = e_F
-    contact = Sphere2Plane(frame, body, mu=mu, r=r, B_r_CP=B, anisotropy=np.asarray(aniso, float), **kw)
+    if brcp:
+        contact = Sphere2Plane(frame, body, mu=mu, r=r, B_r_CP=B, anisotropy=np.asarray(aniso, float), **kw)
+    else:
+        # friction coefficient and radius in the documented POSITIONAL order
+        contact = Sphere2Plane(frame, body, mu, r, anisotropy=np.asarray(aniso, float), **kw)
     system.add(frame, body, contact)
     _assemble(system)
     return dict(system=system, contact=contact, body=body, frame=frame,
